@@ -35,8 +35,22 @@ func (v *VerifSupervisor) CommitSelectLost() bool { return v.s.CommitSelectLost(
 func (v *VerifSupervisor) Inject(ev uint8) { v.s.inject(fsmEvent(ev)) }
 
 // CASOnly performs only the CAS half of a commit (from -> to) and reports success; the harness
-// performs the inject half later with Inject, to open the CAS->inject window.
+// performs the inject half later with Inject, to open the CAS->inject window. For the
+// Selected -> NotSelected commit it mirrors CommitSelectLost's announcement protocol
+// (deselectPending is raised before the CAS and lowered again if the CAS fails).
 func (v *VerifSupervisor) CASOnly(from, to ConnState) bool {
+	if from == SelectedState && to == NotSelectedState {
+		v.s.deselectPending.Add(1)
+
+		if v.s.state.CompareAndSwap(uint32(from), uint32(to)) {
+			return true
+		}
+
+		v.s.deselectPending.Add(-1)
+
+		return false
+	}
+
 	return v.s.state.CompareAndSwap(uint32(from), uint32(to))
 }
 
